@@ -172,6 +172,8 @@ def random_number(rng, tag, kinds=(0.6, 0.2, 0.2), level=None):
     nv = rng.randint(1, 2)
     vs = [("%s_%d" % (tag, j) if rng.random() < 0.75 else "shared", rng.uniform(-2, 2)) for j in range(nv)]
     vs = list({nm: (nm, d) for nm, d in vs}.values())
+    if rng.random() < 0.12:
+        vs = []                              # a dual-valued quote that names NO variable (Dual::from(x)): it must stay one
     if u < kinds[0] + kinds[1]:
         return ("d", x, vs)
     m = len(vs)
